@@ -156,7 +156,7 @@ fn case(rng: &mut Rng, st: &mut Stats, exact: bool) {
                     return;
                 }
                 Err(m) => {
-                    if m.contains("both zero") {
+                    if crate::core::is_zero_pow_zero(&m) {
                         st.bump("zero_to_the_zero_errors_not_judged");
                         return;
                     }
@@ -171,7 +171,7 @@ fn case(rng: &mut Rng, st: &mut Stats, exact: bool) {
         }
         match out {
             Err(m) => {
-                if m.contains("both zero") {
+                if crate::core::is_zero_pow_zero(&m) {
                     st.bump("zero_to_the_zero_errors_not_judged");
                     return;
                 }
@@ -367,7 +367,7 @@ fn relaxed_case(rng: &mut Rng, st: &mut Stats) {
                 return;
             }
             Ok(Err(e)) => {
-                if e.contains("both zero") {
+                if crate::core::is_zero_pow_zero(&e) {
                     st.bump("zero_to_the_zero_errors_not_judged");
                     return;
                 }
